@@ -65,6 +65,12 @@ def generate(rng, tier):
         rmode = rng.choice([None, None, "rowwise", "valuewise"])
         eff = qsort if qsort else fsort
         thr = rng.choice([None, None, None, 1, 2]) if rows else None
+        # a driver that reports fewer column types than it returns columns (the external engine reports none at all):
+        # sorting and flattening go by the rows, not by the reported types
+        rep_types = "T" * ncols
+        if rng.random() < 0.2:
+            rep_types = "T" * rng.randint(0, max(0, ncols - 1))
+            thr = None
         import refimpl
         expected = refimpl.expected_lines(refimpl.shape(rows, ncols, eff, thr), rmode == "valuewise")
         mut = rng.random()
@@ -87,14 +93,57 @@ def generate(rng, tier):
         if thr:
             text = "hash-threshold %d\n\n" % thr + text
         for pi, p in enumerate(perms):
-            cases.append(runfam.impl_case(text, answers=[["rows", "T" * ncols, p]],
+            cases.append(runfam.impl_case(text, answers=[["rows", rep_types, p]],
                                           meta={"base": b, "perm": pi, "eff": eff, "rmode": rmode, "thr": thr,
                                                 "rows": p, "expected": expected}))
     return cases
 
 
+def gen_include_case(rng):
+    """a file-level sort mode set BEFORE an include still governs the queries AFTER it (run_file on a real tree)"""
+    import refimpl
+    fsort = rng.choice(["rowsort", "valuesort", "rowsort", "nosort"])
+    ncols = rng.randint(1, 2)
+    rows = [[rng.choice(["a", "b", "c", "10", "9", "B"]) for _ in range(ncols)] for _ in range(rng.randint(2, 4))]
+    ninc = rng.randint(1, 2)
+    files, answers = [], []
+    main = "control sortmode %s\n\n" % fsort
+    if rng.random() < 0.5:
+        main += "statement ok\nbefore\n\n"; answers.append(["complete", 0])
+    main += "include inc/*.slt\n\n"
+    eff = fsort
+    for k in range(ninc):
+        body = "statement ok\nprelude %d\n\n" % k
+        answers.append(["complete", 0])
+        if rng.random() < 0.2:
+            inner = rng.choice(["rowsort", "nosort", "valuesort"])
+            body += "control sortmode %s\n\n" % inner      # a control inside an included file stays in force afterwards
+            eff = inner
+        files.append(["inc/p%d.slt" % k, "file", body])
+    exp = refimpl.expected_lines(refimpl.shape(rows, ncols, None if eff == "nosort" else eff, None), False)
+    if rng.random() < 0.2 and len(exp) > 1:
+        exp = exp[1:] + exp[:1]
+    main += "query %s\nselect after\n----\n%s" % ("T" * ncols, "".join(l + "\n" for l in exp))
+    answers.append(["rows", "T" * ncols, rng.sample(rows, len(rows))])
+    files.append(["main.slt", "file", main])
+    return {"files": files, "main": "main.slt", "mode": "run", "answers": answers, "default_answer": ["err", "unexpected call"], "meta": {}}
+
+
 def execute(cases, tier):
-    return corr.execute_run_family(__import__("props.C10", fromlist=["x"]), cases, tier)
+    res = corr.execute_run_family(__import__("props.C10", fromlist=["x"]), cases, tier)
+    import random
+    from props import C14
+    rng = random.Random(len(cases) * 104729 + 11)
+    fcases = [gen_include_case(rng) for _ in range(300 if tier == "quick" else 6000)]
+    fres = corr.execute_file_family(C14, fcases, tier, vm_sample=6)
+    for d in fres["disagreements"]:
+        d["broken"] = "corr_C10_file"
+        d["spec"] = "contradicts L1 (C10: the sort mode in force decides the verdict): run_file on a tree with an include between `control sortmode` and the query: " + str(d.get("spec"))[:300]
+    res["disagreements"] += fres["disagreements"]
+    res["stats"]["run_file_evaluations"] = len(fcases)
+    res["stats"]["evaluations"] += len(fcases)
+    res["stats"]["disagreements"] = len(res["disagreements"])
+    return res
 
 
 def verdict_of(obs):
